@@ -855,7 +855,7 @@ func VerifHarness_C05_VectorAggregation() {
 		emitGrouping()
 	}
 	g.t(lexer.OpenParen, "(")
-	param := vsymChoice("param", 3) // none, 2, 0
+	param := vsymChoice("param", 4) // none, 2, 0, no parameter but an operand that starts with a number: `2 * ...`
 	s := "vec#" + strconv.Itoa(int(vo.op))
 	switch param {
 	case 1:
@@ -866,6 +866,9 @@ func VerifHarness_C05_VectorAggregation() {
 		g.t(lexer.Number, "0")
 		g.t(lexer.Comma, ",")
 		s += "(0)"
+	case 3:
+		g.t(lexer.Number, "2")
+		g.t(lexer.Mul, "*")
 	}
 	g.t(lexer.CountOverTime, "count_over_time")
 	g.t(lexer.OpenParen, "(")
@@ -879,16 +882,25 @@ func VerifHarness_C05_VectorAggregation() {
 		emitGrouping()
 	}
 	inner := "range#" + strconv.Itoa(int(RangeOpCount)) + sel + "[" + strconv.FormatInt(int64(time.Minute), 10) + "]"
+	if param == 3 {
+		inner = "(lit:2" + vOp(OpMul) + inner + ")"
+	}
 	s += "<" + inner + ">" + groupShow
 	isK := vo.op == VectorOpTopk || vo.op == VectorOpBottomk
 	valid := true
 	if isK {
 		valid = param == 1
 	} else {
-		valid = param == 0
+		valid = param == 0 || param == 3
 	}
 	if (vo.op == VectorOpSort || vo.op == VectorOpSortDesc) && grouping != 0 {
 		valid = false
+	}
+	if param == 3 && valid {
+		if _, err := vParse(g.toks); err != nil {
+			vsymFinding("F22", true, "an aggregation over an expression that starts with a number, e.g. sum(2 * rate({job=\"a\"}[1m])), is rejected: a leading number is always taken for the aggregation parameter and a comma demanded after it")
+			return
+		}
 	}
 	vExpect(g.toks, s, valid, "vector aggregation")
 	vsymReach("C05_vector")
